@@ -336,4 +336,47 @@ def explore_processor(case, seed=0, max_rows=400):
                     return fail('decode-raises:%s' % type(e).__name__, '%s encoder, corrected vector %s: %s: %s' % (label, list(x2), type(e).__name__, e))
                 if [float(v) for v in x3] != [float(v) for v in x2] or arch_of(inst2) != a:
                     return fail('corrected-vector-not-a-fixed-point', '%s encoder, %s -> %s -> %s' % (label, x, list(x2), list(x3)))
+    # fixing a variable restricts, freeing restores: with one discrete variable fixed every decode must still be an
+    # architecture of the model (an explicit RuntimeError is tolerated: the restricted space may be empty for that vector's
+    # scenario); after freeing, the rows decode to what they decoded to before
+    if want and rows:
+        for et, label in ((SelChoiceEncoderType.COMPLETE, 'complete'), (SelChoiceEncoderType.FAST, 'fast')):
+            try:
+                gq = gp if label == 'complete' else GraphProcessor(b.dsg, encoder_type=et)
+                from adsg_core.graph.adsg_nodes import ConnectionChoiceNode as _CCN
+                # fixing is documented as not supported for connection-choice variables
+                cands = [dv for dv in gq.all_des_vars if dv.is_discrete and dv.n_opts >= 2 and not isinstance(dv.node, _CCN)]
+            except Exception as e:
+                return fail('processor-raises:%s' % type(e).__name__, '%s encoder: %s: %s' % (label, type(e).__name__, e))
+            if not cands:
+                continue
+            combos = [(dv, v) for dv in cands for v in range(dv.n_opts)]
+            rng.shuffle(combos)
+            for dvf, val in combos[:5]:
+                try:
+                    gq.fix_des_var(dvf, val)
+                    free_vars = gq.des_vars
+                    for _ in range(8):
+                        x = [rng.randrange(dv.n_opts) if dv.is_discrete else dv.bounds[0] for dv in free_vars]
+                        try:
+                            inst, x2, act = gq.get_graph(x)
+                        except RuntimeError:
+                            tags.append('fixed-decode-runtime-error')
+                            continue
+                        except Exception as e:
+                            return fail('decode-raises:%s' % type(e).__name__, '%s encoder, %s fixed to %d, vector %s: %s: %s' % (label, dvf.name, val, x, type(e).__name__, e))
+                        if arch_of(inst) not in want:
+                            return fail('decoded-architecture-not-in-model', '%s encoder, %s fixed to %d, vector %s -> %s' % (label, dvf.name, val, x, arch_of(inst)))
+                    gq.free_des_var(dvf)
+                except Exception as e:
+                    return fail('fix-or-free-raises:%s' % type(e).__name__, '%s encoder, %s: %s' % (label, dvf.name, e))
+            if label == 'complete':
+                for xr in again[:20]:
+                    try:
+                        inst, x2, act = gq.get_graph(xr)
+                    except Exception as e:
+                        return fail('decode-raises:%s' % type(e).__name__, 'row %s after fix/free: %s: %s' % (xr, type(e).__name__, e))
+                    if arch_of(inst) != first[tuple(xr)]:
+                        return fail('decode-after-free-gives-another-architecture', 'row %s: first %s, after fix/free %s' % (xr, first[tuple(xr)], arch_of(inst)))
+            tags.append('fix-free:' + label)
     return {'impl': {'architectures': len(want)}, 'nontrivial': len(want) >= 2, 'tags': tags, 'queries': []}
